@@ -353,7 +353,7 @@ class C14(ModelCheck):
     shrink_key = "tasks"
 
     def n_random(self, tier):
-        return {"quick": 500, "thorough": 20000}[tier]
+        return {"quick": 1200, "thorough": 20000}[tier]
 
     def gen(self, R):
         return gen(R)
